@@ -148,6 +148,11 @@ pub struct FnInfo {
     /// the body of this function's `while` is not translated again: the loop calls the generated step function
     /// (a `while_body_state` entry for the same Rust function) with this `gen` name
     pub while_step: Option<String>,
+    /// `for_body_state`: like `while_body`, for the function's top-level `for`
+    pub for_body: bool,
+    /// match arms (by variant name) that are not translated: their bodies are dropped (the step function leaves the
+    /// state alone there) and the lemma's statement excludes them
+    pub skip_arms: Vec<String>,
     pub ret: Ty,
     pub self_ty: Option<Ty>,
     pub body: Body,
@@ -700,7 +705,7 @@ pub fn load(repo: &str, spec: &Value) -> Result<Ctx, String> {
             },
         };
         // one iteration of the function's `while` loop, next to an entry for the whole function
-        let label = if fs.get("while_body_state").is_some() { format!("{} (loop body)", label) } else { label };
+        let label = if fs.get("while_body_state").is_some() || fs.get("for_body_state").is_some() { format!("{} (loop body)", label) } else { label };
         let mut info = FnInfo {
             file: file.clone(),
             impl_ty: impl_ty.clone(),
@@ -751,6 +756,8 @@ pub fn load(repo: &str, spec: &Value) -> Result<Ctx, String> {
             callback_append: jstr(fs, "callback_append"),
             neg_literal_op: fs.get("neg_literal_op").and_then(|x| x.as_bool()).unwrap_or(false),
             while_step: jstr(fs, "while_step"),
+            for_body: fs.get("for_body_state").is_some(),
+            skip_arms: fs.get("skip_arms").and_then(|x| x.as_array()).map(|a| a.iter().filter_map(|x| x.as_str().map(|y| y.to_string())).collect()).unwrap_or_default(),
             ret: Ty::Unknown,
             self_ty: None,
             body: Body::None,
@@ -909,7 +916,7 @@ pub fn load(repo: &str, spec: &Value) -> Result<Ctx, String> {
                 idx += 1;
             }
             info.params = params;
-            if let Some(st) = fs.get("while_body_state").and_then(|x| x.as_array()) {
+            if let Some(st) = fs.get("while_body_state").or_else(|| fs.get("for_body_state")).and_then(|x| x.as_array()) {
                 // the state variables of the loop (and the variables its pattern binds) are the parameters
                 let mut ps = Vec::new();
                 let parse = |pair: &Value| -> (String, Ty) {
@@ -922,7 +929,7 @@ pub fn load(repo: &str, spec: &Value) -> Result<Ctx, String> {
                     ps.push(Param { pat: None, name: n, ty: t });
                 }
                 let nstate = ps.len();
-                if let Some(vs) = fs.get("while_body_vars").and_then(|x| x.as_array()) {
+                if let Some(vs) = fs.get("while_body_vars").or_else(|| fs.get("for_body_vars")).and_then(|x| x.as_array()) {
                     for pair in vs {
                         let (n, t) = parse(pair);
                         ps.push(Param { pat: None, name: n, ty: t });
@@ -940,7 +947,55 @@ pub fn load(repo: &str, spec: &Value) -> Result<Ctx, String> {
                 syn::ReturnType::Type(_, t) => ctx.ty_of(t, self_ty.as_ref(), output.as_ref(), &g),
             }
             };
-            info.body = Body::Block(fd.block.clone());
+            let mut blk = fd.block.clone();
+            if let Some(cb) = jstr(fs, "callback_as_push") {
+                // `callback(x)` with `callback: impl FnMut(X)`: the elements handed to it, as a list that is pushed to
+                use syn::visit_mut::VisitMut;
+                struct Cb(String);
+                impl VisitMut for Cb {
+                    fn visit_expr_mut(&mut self, e: &mut syn::Expr) {
+                        syn::visit_mut::visit_expr_mut(self, e);
+                        let mut repl = None;
+                        if let syn::Expr::Call(c) = e {
+                            if let syn::Expr::Path(p) = &*c.func {
+                                if p.path.is_ident(self.0.as_str()) && c.args.len() == 1 {
+                                    let id = p.path.get_ident().unwrap().clone();
+                                    let a = c.args[0].clone();
+                                    repl = Some(syn::parse_quote!(#id.push(#a)));
+                                }
+                            }
+                        }
+                        if let Some(r) = repl {
+                            *e = r;
+                        }
+                    }
+                }
+                Cb(cb).visit_block_mut(&mut blk);
+            }
+            if !info.skip_arms.is_empty() {
+                // the bodies of the arms that are not translated are dropped here (what they assign is not state of the step)
+                use syn::visit_mut::VisitMut;
+                struct Sk<'a>(&'a [String], syn::Ident);
+                impl<'a> VisitMut for Sk<'a> {
+                    fn visit_arm_mut(&mut self, a: &mut syn::Arm) {
+                        let v = match &a.pat {
+                            syn::Pat::TupleStruct(ts) => ts.path.segments.last().map(|x| x.ident.to_string()),
+                            syn::Pat::Path(pp) => pp.path.segments.last().map(|x| x.ident.to_string()),
+                            _ => None,
+                        };
+                        if v.map_or(false, |v| self.0.contains(&v)) {
+                            let id = &self.1;
+                            a.body = Box::new(syn::parse_quote!({ #id = #id; }));
+                        } else {
+                            syn::visit_mut::visit_arm_mut(self, a);
+                        }
+                    }
+                }
+                let sk = info.skip_arms.clone();
+                let first = info.params.first().map(|p| p.name.clone()).unwrap_or_else(|| "self".to_string());
+                Sk(&sk, syn::Ident::new(&first, proc_macro2::Span::call_site())).visit_block_mut(&mut blk);
+            }
+            info.body = Body::Block(blk);
         }
         if let Some(e) = impl_ty.as_ref().and_then(|t| bad_types.get(t)) {
             info.load_error = Some(format!("untranslatable: {}", e));
